@@ -33,7 +33,11 @@ Definition response_eqb (a b : response) : bool :=
     contains a dot but is not recognised as a regular expression *)
 Definition dot_text (v : str) : bool :=
   let val := trim_suffix (s ".*") (trim_prefix (s ".*") v) in
-  existsb (N.eqb 46) val && negb (has_regex_chars val).
+  (existsb (N.eqb 46) val && negb (has_regex_chars val))
+  || (* the same heuristic decides whether ^text$ becomes an equality test: it looks at the text between the anchors *)
+     (has_prefix (s "^") val && has_suffix (s "$") val &&
+      let val2 := trim_suffix (s "$") (trim_prefix (s "^") val) in
+      existsb (N.eqb 46) val2 && negb (has_regex_chars val2)).
 
 Definition is_regex_op (o : op) : bool :=
   match o with ORe | ONRe | OReI | ONReI => true | _ => false end.
